@@ -149,6 +149,17 @@ func runC04(c *Ctx) {
 		c.undecided("R4", "instance-floor", "", fmt.Sprintf("%d conversion / encoder call sites found, 7 confirmed by hand", nSites))
 	}
 	jsonTextAsData(c, "R5")
+	c.note("R6 encoder-output-unmodified: GetRootJson returns exactly string(json.MarshalIndent(ToGoValue(root), \"\", \"  \")) and json(v) exactly that of its argument: no text is produced or rewritten outside encoding/json (a hand-written fast path or a post-processing of the encoder's text is where escaping goes wrong).")
+	c.checkArm("R6", "GetRootJson", p.LangFunc("(*Evaluator).GetRootJson"), armSpec{
+		Results: []string{`string(encoding/json.MarshalIndent((*lang.Value).ToGoValue(&e.root.Value)#0, "", "  ")#0)`},
+		Effects: []string{},
+		Source:  "-o serialises the current root via json.MarshalIndent",
+	})
+	c.checkArm("R6", "builtin json", p.LangFunc("nativeJson"), armSpec{
+		Results: []string{`&lang.NewValue(string(encoding/json.MarshalIndent((*lang.Value).ToGoValue(args[0])#0, "", "  ")#0))`},
+		Effects: []string{},
+		Source:  "json(v) returns the encoder's text for v",
+	})
 }
 
 // sliceRoots follows a slice value back through phis and append(first argument).
